@@ -96,6 +96,11 @@ func ReadBlockSummaries(fileName string,
 		// todo kunal do we need blksumlen ?
 		offset += 4 // for blkSumLen
 
+		if offset > fileSize {
+			log.Errorf("ReadBlockSummaries: file ends inside a block summary length; file=%v, size=%d", fileName, fileSize)
+			return blockSummaries, allBmi, errors.New("bad data")
+		}
+
 		if len(rbuf[offset:]) < 2+8+8+2+2 {
 			log.Errorf("ReadBlockSummaries: expected at least %d more bytes for block header, got %d more bytes; file=%v, offset=%d",
 				2+8+8+2+2, len(rbuf[offset:]), fileName, offset)
